@@ -40,7 +40,7 @@ func RenameBlankIdentifierWith(sig *types.Signature, prefix string) *types.Signa
 
 func hasBlankIdentifier(tup *types.Tuple) bool {
 	for i := 0; i < tup.Len(); i++ {
-		if tup.At(i).Name() == blackIdentifier {
+		if name := tup.At(i).Name(); name == blackIdentifier || name == "" {
 			return true
 		}
 	}
@@ -51,7 +51,7 @@ func rename(tup *types.Tuple, prefix string) *types.Tuple {
 	vars := make([]*types.Var, tup.Len())
 	for i := range vars {
 		varValue := tup.At(i)
-		if varValue.Name() == blackIdentifier || strings.HasPrefix(varValue.Name(), prefix) {
+		if varValue.Name() == blackIdentifier || varValue.Name() == "" || strings.HasPrefix(varValue.Name(), prefix) {
 			varValue = types.NewVar(varValue.Pos(), varValue.Pkg(), prefix+strconv.Itoa(i), varValue.Type())
 		}
 		vars[i] = varValue
